@@ -139,6 +139,21 @@ CHECKS["C13"] = dict(
     technique=TECH,
 )
 
+CHECKS["C18"] = dict(
+    category="proof",
+    text=("Every place that detects unhonoured input is proved to emit exactly one warning under exactly the stated "
+          "condition: IncludeNode.evaluate_for_platform (iff the lookup found nothing - a memoised miss included - with the "
+          "form quote/angle named), FileParser.insert_directive_node (iff unrecognised, >= 2 tokens, not #line/#warning/"
+          "#error), load_database (one per skipped entry), ArgumentParser.__init__ (unknown compiler / alias loop / "
+          "dangling alias). MetaWarning.inspect/warn and WarningAggregator.filter/warn are proved to count exactly the "
+          "matching WARNING records and to print the count they hold; the set of log.warning call sites is checked "
+          "against a table. The whole-run multiset of events and the printed totals are a bounded stand-in (model code "
+          "bases with missing includes / unknown directives vs the reference preprocessor)."),
+    design_ref="DESIGN.md section 5 C18, section 9",
+    note=COMMON_NOTE + "A7 logging delivers one record per call; re.search / str.format uninterpreted; regex category soundness not proved; unknown flags only bounded (C11).",
+    technique=TECH,
+)
+
 NA = {}
 
 DEFAULT_NA = "check not built yet (work in progress; see DESIGN.md section 5 for the plan)"
